@@ -285,7 +285,13 @@ end
 def callCustom (fid : Nat) (recv : Val) (args : List Val) : Val :=
   match recv with
   | .str s => if fid == 0 then .str (s ++ [124] ++ Val.descList args) else .str (b "const")
-  | .arr xs => if fid == 0 then .arr (xs ++ args) else .arr [.str (Val.descList xs), .str (Val.descList args)]
+  | .arr xs =>
+    if fid == 0 then .arr (xs ++ args)
+    else if fid == 2 then
+      match args with
+      | [] => .arr xs
+      | a0 :: _ => .arr (xs.map fun x => if Val.desc x == Val.desc a0 then .str (b "***") else x)
+    else .arr [.str (Val.descList xs), .str (Val.descList args)]
   | .int i => if fid == 0 then .int (i + Int64.ofNat args.length) else .int (i * 2)
   | .float f => if fid == 0 then .float (f / 2.0) else .float (f + Float.ofNat args.length)
   | .bool v => if fid == 0 then .bool (!v) else .bool (args.length > 0)
